@@ -480,9 +480,8 @@ amp!(o18_1_pending_sync, true, 7);
 
 // ---- C08: per-address event grammar, one operation from any lifecycle state ---------------------
 
-fn any_frame() -> frame::Frame {
-    let k: u8 = kani::any();
-    kani::assume(k < 9);
+fn any_frame() -> frame::Frame { let k: u8 = kani::any(); kani::assume(k < 9); frame_of_kind(k) }
+fn frame_of_kind(k: u8) -> frame::Frame {
     match k {
         0 => frame::Frame::HandshakeSynFrame(frame::HandshakeSynFrame { version: kani::any(), nonce: kani::any(), max_receive_rate: kani::any(), max_packet_size: kani::any(), max_receive_alloc: kani::any() }),
         1 => frame::Frame::HandshakeSynAckFrame(frame::HandshakeSynAckFrame { nonce_ack: kani::any(), nonce: kani::any(), max_receive_rate: kani::any(), max_packet_size: kani::any(), max_receive_alloc: kani::any() }),
@@ -498,7 +497,7 @@ fn any_frame() -> frame::Frame {
 
 // Tracked entry for address A in the given lifecycle class, with the timer entry / active-list entry the code
 // itself creates for that state (fields any).
-fn track(s: &mut Server, class: u8) -> Rc<RefCell<remote_client::RemoteClient>> {
+fn track(s: &mut Server, class: u8) -> (Rc<RefCell<remote_client::RemoteClient>>, Option<event_queue::Event>) {
     let state = match class {
         1 => remote_client::State::Pending(remote_client::PendingState { local_nonce: kani::any(), remote_nonce: kani::any(), remote_max_receive_rate: kani::any(),
                                                                           remote_max_receive_alloc: kani::any(), reply_bytes: Box::new([1u8; 25]) }),
@@ -515,13 +514,15 @@ fn track(s: &mut Server, class: u8) -> Rc<RefCell<remote_client::RemoteClient>> 
     s.clients.insert(addr(A), Rc::clone(&rc));
     let count: u8 = kani::any();
     kani::assume(count <= 10);
-    match class {
-        1 => s.client_events.push(event_queue::Event::new(Rc::clone(&rc), event_queue::EventType::ResendHandshakeSynAck, any_time(), count)),
-        2 => s.active_clients.push(Rc::clone(&rc)),
-        3 => { s.active_clients.push(Rc::clone(&rc)); s.client_events.push(event_queue::Event::new(Rc::clone(&rc), event_queue::EventType::ResendDisconnect, any_time(), count)) }
-        _ => s.client_events.push(event_queue::Event::new(Rc::clone(&rc), event_queue::EventType::ClosedTimeout, any_time(), 0)),
-    }
-    rc
+    // The timer entry the code keeps for this state is handed back to the obligation instead of being queued: the
+    // obligation fires it by calling handle_event (the body of the timer loop of handle_events) when it is due.
+    let timer = match class {
+        1 => Some(event_queue::Event::new(Rc::clone(&rc), event_queue::EventType::ResendHandshakeSynAck, any_time(), count)),
+        2 => { s.active_clients.push(Rc::clone(&rc)); None }
+        3 => { s.active_clients.push(Rc::clone(&rc)); Some(event_queue::Event::new(Rc::clone(&rc), event_queue::EventType::ResendDisconnect, any_time(), count)) }
+        _ => Some(event_queue::Event::new(Rc::clone(&rc), event_queue::EventType::ClosedTimeout, any_time(), 0)),
+    };
+    (rc, timer)
 }
 
 struct Ev { n: usize, connect: usize, receive: usize, disconnect: usize, error: usize, other_addr: usize, last_is_terminal: bool, receive_after_terminal: bool }
@@ -541,16 +542,21 @@ fn summarise(s: &Server) -> Ev {
     e
 }
 
-fn server_grammar_step(class: u8) {
+// op: 0 = a frame of kind `kind` from A (fields any), 1 = A's due timer entry fires, 2 = step_active_clients, 3/4/5 = application calls,
+// 6 = drop(), 7 = active-timeout scan.  class/op/kind are concrete per obligation (each is a heap-modifying case split, DESIGN.md 10.8).
+fn server_grammar_step_op(class: u8, op: u8, kind: u8) {
+    // kind >= 16: the connection model delivers a packet in receive(); otherwise it delivers none
+    unsafe { oq::DELIVER_FIXED = Some(kind >= 16); }
+    let kind = kind & 15;
     let cfg = EndpointConfig::default();
     let mut s = mk_server(4, 4, cfg);
-    let rc = track(&mut s, class);
-    let op: u8 = kani::any();
-    kani::assume(op < 7);
+    let (rc, timer) = track(&mut s, class);
     let now = any_time();
     match op {
-        0 => s.handle_frame(addr(A), any_frame(), now),
-        1 => s.handle_events(now),
+        0 => s.handle_frame(addr(A), frame_of_kind(kind), now),
+        // handle_events = (a) fire every due timer entry, (b) scan the active connections for the active timeout
+        1 => match timer { Some(ev) => { kani::assume(ev.time <= now); s.handle_event(ev, now); } None => () },
+        7 => s.handle_events(now),
         2 => s.step_active_clients(now),
         3 => rc.borrow_mut().disconnect(),
         4 => rc.borrow_mut().disconnect_now(),
@@ -585,75 +591,352 @@ fn server_grammar_step(class: u8) {
             assert!(c1 == 4 || c1 == 0);
         }
     }
-    kani::cover!(class == 2 && e.receive == 1 && e.disconnect == 1, "Receive then Disconnect in one operation");
-    kani::cover!(class != 2 || e.error == 1, "active timeout");
-    kani::cover!(class != 3 || e.disconnect == 1, "closing ends with Disconnect");
-    kani::cover!(class != 1 || e.connect == 1, "pending becomes established");
+    kani::cover!(true, "the operation returns");
     std::mem::forget(rc);
     std::mem::forget(s);
 }
+// (a timer entry that was not fired is dropped with the harness state)
 
-macro_rules! sgram { ($name:ident, $class:expr) => {
+macro_rules! sg { ($name:ident, $class:expr, $op:expr, $kind:expr) => {
     #[kani::proof]
     #[kani::unwind(6)]
     #[kani::stub(crate::frame::serial::crc::compute, crate::frame::serial::verif_codec::crc_stub)]
-    fn $name() { server_grammar_step($class); }
+    fn $name() { server_grammar_step_op($class, $op, $kind); }
 } }
+//@h props=C08,C03,C09 tier=quick timeout=600 role=server-event-grammar args=--no-memory-safety-checks
+//@fn Server::{handle_frame and the handler of this frame type}
+//@bound server tracking address A in state Pending (nonces/limits any; its SYN-ACK resend timer entry: any time, any count <= 10); ONE syn frame from A with every field any, at any time < 2^40
+//@assume VecMap for HashMap; opaque connection model; socket model; nonce source any; crc::compute stubbed; pointer checks off (lifecycle logic only)
+sg!(o8_2_server_pending_frame_syn, 1, 0, 0);
+//@h props=C08,C03,C09 tier=quick timeout=600 role=server-event-grammar args=--no-memory-safety-checks
+//@fn Server::{handle_frame and the handler of this frame type}
+//@bound server tracking address A in state Pending (nonces/limits any; its SYN-ACK resend timer entry: any time, any count <= 10); ONE syn_ack frame from A with every field any, at any time < 2^40
+//@assume as o8_2_server_pending_frame_syn
+sg!(o8_2_server_pending_frame_syn_ack, 1, 0, 1);
+//@h props=C08,C03,C09 tier=quick timeout=600 role=server-event-grammar args=--no-memory-safety-checks
+//@fn Server::{handle_frame and the handler of this frame type}
+//@bound server tracking address A in state Pending (nonces/limits any; its SYN-ACK resend timer entry: any time, any count <= 10); ONE ack frame from A with every field any, at any time < 2^40
+//@assume as o8_2_server_pending_frame_syn
+sg!(o8_2_server_pending_frame_ack, 1, 0, 2);
+//@h props=C08,C03,C09 tier=quick timeout=600 role=server-event-grammar args=--no-memory-safety-checks
+//@fn Server::{handle_frame and the handler of this frame type}
+//@bound server tracking address A in state Pending (nonces/limits any; its SYN-ACK resend timer entry: any time, any count <= 10); ONE error frame from A with every field any, at any time < 2^40
+//@assume as o8_2_server_pending_frame_syn
+sg!(o8_2_server_pending_frame_error, 1, 0, 3);
+//@h props=C08,C03,C09 tier=quick timeout=600 role=server-event-grammar args=--no-memory-safety-checks
+//@fn Server::{handle_frame and the handler of this frame type}
+//@bound server tracking address A in state Pending (nonces/limits any; its SYN-ACK resend timer entry: any time, any count <= 10); ONE disconnect frame from A with every field any, at any time < 2^40
+//@assume as o8_2_server_pending_frame_syn
+sg!(o8_2_server_pending_frame_disconnect, 1, 0, 4);
+//@h props=C08,C03,C09 tier=quick timeout=600 role=server-event-grammar args=--no-memory-safety-checks
+//@fn Server::{handle_frame and the handler of this frame type}
+//@bound server tracking address A in state Pending (nonces/limits any; its SYN-ACK resend timer entry: any time, any count <= 10); ONE disconnect_ack frame from A with every field any, at any time < 2^40
+//@assume as o8_2_server_pending_frame_syn
+sg!(o8_2_server_pending_frame_disconnect_ack, 1, 0, 5);
+//@h props=C08,C03,C09 tier=quick timeout=600 role=server-event-grammar args=--no-memory-safety-checks
+//@fn Server::{handle_frame and the handler of this frame type}
+//@bound server tracking address A in state Pending (nonces/limits any; its SYN-ACK resend timer entry: any time, any count <= 10); ONE data frame from A with every field any, at any time < 2^40
+//@assume as o8_2_server_pending_frame_syn
+sg!(o8_2_server_pending_frame_data, 1, 0, 6);
+//@h props=C08,C03,C09 tier=quick timeout=600 role=server-event-grammar args=--no-memory-safety-checks
+//@fn Server::{handle_frame and the handler of this frame type}
+//@bound server tracking address A in state Pending (nonces/limits any; its SYN-ACK resend timer entry: any time, any count <= 10); ONE sync frame from A with every field any, at any time < 2^40
+//@assume as o8_2_server_pending_frame_syn
+sg!(o8_2_server_pending_frame_sync, 1, 0, 7);
+//@h props=C08,C03,C09 tier=quick timeout=600 role=server-event-grammar args=--no-memory-safety-checks
+//@fn Server::{handle_frame and the handler of this frame type}
+//@bound server tracking address A in state Pending (nonces/limits any; its SYN-ACK resend timer entry: any time, any count <= 10); ONE ackframe frame from A with every field any, at any time < 2^40
+//@assume as o8_2_server_pending_frame_syn
+sg!(o8_2_server_pending_frame_ackframe, 1, 0, 8);
+//@h props=C08,C03,C09 tier=quick timeout=600 role=server-event-grammar args=--no-memory-safety-checks
+//@fn Server::{handle_event, handle_events, step_active_clients, drop}, RemoteClient::{send, disconnect, disconnect_now}
+//@bound server tracking address A in state Pending (nonces/limits any; its SYN-ACK resend timer entry: any time, any count <= 10); ONE operation: its timer entry fires at any time at which it is due (handle_event, the body of the timer loop of handle_events)
+//@assume as o8_2_server_pending_frame_syn; the timer loop of handle_events (peek, break unless due, pop, handle_event) is modelled by the obligation calling handle_event on the due entry (see o18_1_pending_timer)
+sg!(o8_2_server_pending_timer_fires, 1, 1, 0);
+//@h props=C08,C03,C09 tier=quick timeout=600 role=server-event-grammar args=--no-memory-safety-checks
+//@fn Server::{handle_event, handle_events, step_active_clients, drop}, RemoteClient::{send, disconnect, disconnect_now}
+//@bound server tracking address A in state Pending (nonces/limits any; its SYN-ACK resend timer entry: any time, any count <= 10); ONE operation: step_active_clients at any time
+//@assume as o8_2_server_pending_frame_syn; the timer loop of handle_events (peek, break unless due, pop, handle_event) is modelled by the obligation calling handle_event on the due entry (see o18_1_pending_timer)
+sg!(o8_2_server_pending_step_active_clients, 1, 2, 0);
+//@h props=C08,C03,C09 tier=quick timeout=600 role=server-event-grammar args=--no-memory-safety-checks
+//@fn Server::{handle_event, handle_events, step_active_clients, drop}, RemoteClient::{send, disconnect, disconnect_now}
+//@bound server tracking address A in state Pending (nonces/limits any; its SYN-ACK resend timer entry: any time, any count <= 10); ONE operation: RemoteClient::disconnect()
+//@assume as o8_2_server_pending_frame_syn; the timer loop of handle_events (peek, break unless due, pop, handle_event) is modelled by the obligation calling handle_event on the due entry (see o18_1_pending_timer)
+sg!(o8_2_server_pending_app_disconnect, 1, 3, 0);
+//@h props=C08,C03,C09 tier=quick timeout=600 role=server-event-grammar args=--no-memory-safety-checks
+//@fn Server::{handle_event, handle_events, step_active_clients, drop}, RemoteClient::{send, disconnect, disconnect_now}
+//@bound server tracking address A in state Pending (nonces/limits any; its SYN-ACK resend timer entry: any time, any count <= 10); ONE operation: RemoteClient::disconnect_now()
+//@assume as o8_2_server_pending_frame_syn; the timer loop of handle_events (peek, break unless due, pop, handle_event) is modelled by the obligation calling handle_event on the due entry (see o18_1_pending_timer)
+sg!(o8_2_server_pending_app_disconnect_now, 1, 4, 0);
+//@h props=C08,C03,C09 tier=quick timeout=600 role=server-event-grammar args=--no-memory-safety-checks
+//@fn Server::{handle_event, handle_events, step_active_clients, drop}, RemoteClient::{send, disconnect, disconnect_now}
+//@bound server tracking address A in state Pending (nonces/limits any; its SYN-ACK resend timer entry: any time, any count <= 10); ONE operation: RemoteClient::send()
+//@assume as o8_2_server_pending_frame_syn; the timer loop of handle_events (peek, break unless due, pop, handle_event) is modelled by the obligation calling handle_event on the due entry (see o18_1_pending_timer)
+sg!(o8_2_server_pending_app_send, 1, 5, 0);
+//@h props=C08,C03,C09 tier=quick timeout=600 role=server-event-grammar args=--no-memory-safety-checks
+//@fn Server::{handle_event, handle_events, step_active_clients, drop}, RemoteClient::{send, disconnect, disconnect_now}
+//@bound server tracking address A in state Pending (nonces/limits any; its SYN-ACK resend timer entry: any time, any count <= 10); ONE operation: Server::drop(A)
+//@assume as o8_2_server_pending_frame_syn; the timer loop of handle_events (peek, break unless due, pop, handle_event) is modelled by the obligation calling handle_event on the due entry (see o18_1_pending_timer)
+sg!(o8_2_server_pending_drop, 1, 6, 0);
+//@h props=C08,C03,C09 tier=quick timeout=600 role=server-event-grammar args=--no-memory-safety-checks
+//@fn Server::{handle_event, handle_events, step_active_clients, drop}, RemoteClient::{send, disconnect, disconnect_now}
+//@bound server tracking address A in state Pending (nonces/limits any; its SYN-ACK resend timer entry: any time, any count <= 10); ONE operation: handle_events at any time with no timer entry due (the active-timeout scan)
+//@assume as o8_2_server_pending_frame_syn; the timer loop of handle_events (peek, break unless due, pop, handle_event) is modelled by the obligation calling handle_event on the due entry (see o18_1_pending_timer)
+sg!(o8_2_server_pending_timeout_scan, 1, 7, 0);
+//@h props=C08,C03,C09 tier=quick timeout=600 role=server-event-grammar args=--no-memory-safety-checks
+//@fn Server::{handle_frame and the handler of this frame type}
+//@bound server tracking address A in state Active (deadline any, disconnect signal any; the connection model answers anything and delivers 0..1 packets per receive()); ONE syn frame from A with every field any, at any time < 2^40
+//@assume as o8_2_server_pending_frame_syn
+sg!(o8_2_server_active_frame_syn, 2, 0, 0);
+//@h props=C08,C03,C09 tier=quick timeout=600 role=server-event-grammar args=--no-memory-safety-checks
+//@fn Server::{handle_frame and the handler of this frame type}
+//@bound server tracking address A in state Active (deadline any, disconnect signal any; the connection model answers anything and delivers 0..1 packets per receive()); ONE syn_ack frame from A with every field any, at any time < 2^40
+//@assume as o8_2_server_pending_frame_syn
+sg!(o8_2_server_active_frame_syn_ack, 2, 0, 1);
+//@h props=C08,C03,C09 tier=quick timeout=600 role=server-event-grammar args=--no-memory-safety-checks
+//@fn Server::{handle_frame and the handler of this frame type}
+//@bound server tracking address A in state Active (deadline any, disconnect signal any; the connection model answers anything and delivers 0..1 packets per receive()); ONE ack frame from A with every field any, at any time < 2^40
+//@assume as o8_2_server_pending_frame_syn
+sg!(o8_2_server_active_frame_ack, 2, 0, 2);
+//@h props=C08,C03,C09 tier=quick timeout=600 role=server-event-grammar args=--no-memory-safety-checks
+//@fn Server::{handle_frame and the handler of this frame type}
+//@bound server tracking address A in state Active (deadline any, disconnect signal any; the connection model answers anything and delivers 0..1 packets per receive()); ONE error frame from A with every field any, at any time < 2^40
+//@assume as o8_2_server_pending_frame_syn
+sg!(o8_2_server_active_frame_error, 2, 0, 3);
+//@h props=C08,C03,C09 tier=quick timeout=600 role=server-event-grammar args=--no-memory-safety-checks
+//@fn Server::{handle_frame and the handler of this frame type}
+//@bound server tracking address A in state Active (deadline any, disconnect signal any; the connection model answers anything and delivers 0..1 packets per receive()); ONE disconnect frame from A with every field any, at any time < 2^40
+//@assume as o8_2_server_pending_frame_syn
+sg!(o8_2_server_active_frame_disconnect, 2, 0, 4);
+//@h props=C08,C03,C09 tier=quick timeout=600 role=server-event-grammar args=--no-memory-safety-checks
+//@fn Server::{handle_frame and the handler of this frame type}
+//@bound server tracking address A in state Active (deadline any, disconnect signal any; the connection model answers anything and delivers 0..1 packets per receive()); ONE disconnect_ack frame from A with every field any, at any time < 2^40
+//@assume as o8_2_server_pending_frame_syn
+sg!(o8_2_server_active_frame_disconnect_ack, 2, 0, 5);
+//@h props=C08,C03,C09 tier=quick timeout=600 role=server-event-grammar args=--no-memory-safety-checks
+//@fn Server::{handle_frame and the handler of this frame type}
+//@bound server tracking address A in state Active (deadline any, disconnect signal any; the connection model answers anything and delivers 0..1 packets per receive()); ONE data frame from A with every field any, at any time < 2^40
+//@assume as o8_2_server_pending_frame_syn
+sg!(o8_2_server_active_frame_data, 2, 0, 6);
+//@h props=C08,C03,C09 tier=quick timeout=600 role=server-event-grammar args=--no-memory-safety-checks
+//@fn Server::{handle_frame and the handler of this frame type}
+//@bound server tracking address A in state Active (deadline any, disconnect signal any; the connection model answers anything and delivers 0..1 packets per receive()); ONE sync frame from A with every field any, at any time < 2^40
+//@assume as o8_2_server_pending_frame_syn
+sg!(o8_2_server_active_frame_sync, 2, 0, 7);
+//@h props=C08,C03,C09 tier=quick timeout=600 role=server-event-grammar args=--no-memory-safety-checks
+//@fn Server::{handle_frame and the handler of this frame type}
+//@bound server tracking address A in state Active (deadline any, disconnect signal any; the connection model answers anything and delivers 0..1 packets per receive()); ONE ackframe frame from A with every field any, at any time < 2^40
+//@assume as o8_2_server_pending_frame_syn
+sg!(o8_2_server_active_frame_ackframe, 2, 0, 8);
+//@h props=C08,C03,C09 tier=quick timeout=600 role=server-event-grammar args=--no-memory-safety-checks
+//@fn Server::{handle_event, handle_events, step_active_clients, drop}, RemoteClient::{send, disconnect, disconnect_now}
+//@bound server tracking address A in state Active (deadline any, disconnect signal any; the connection model answers anything and delivers 0..1 packets per receive()); ONE operation: step_active_clients at any time
+//@assume as o8_2_server_pending_frame_syn; the timer loop of handle_events (peek, break unless due, pop, handle_event) is modelled by the obligation calling handle_event on the due entry (see o18_1_pending_timer)
+sg!(o8_2_server_active_step_active_clients, 2, 2, 0);
+//@h props=C08,C03,C09 tier=quick timeout=600 role=server-event-grammar args=--no-memory-safety-checks
+//@fn Server::{handle_event, handle_events, step_active_clients, drop}, RemoteClient::{send, disconnect, disconnect_now}
+//@bound server tracking address A in state Active (deadline any, disconnect signal any; the connection model answers anything and delivers 0..1 packets per receive()); ONE operation: RemoteClient::disconnect()
+//@assume as o8_2_server_pending_frame_syn; the timer loop of handle_events (peek, break unless due, pop, handle_event) is modelled by the obligation calling handle_event on the due entry (see o18_1_pending_timer)
+sg!(o8_2_server_active_app_disconnect, 2, 3, 0);
+//@h props=C08,C03,C09 tier=quick timeout=600 role=server-event-grammar args=--no-memory-safety-checks
+//@fn Server::{handle_event, handle_events, step_active_clients, drop}, RemoteClient::{send, disconnect, disconnect_now}
+//@bound server tracking address A in state Active (deadline any, disconnect signal any; the connection model answers anything and delivers 0..1 packets per receive()); ONE operation: RemoteClient::disconnect_now()
+//@assume as o8_2_server_pending_frame_syn; the timer loop of handle_events (peek, break unless due, pop, handle_event) is modelled by the obligation calling handle_event on the due entry (see o18_1_pending_timer)
+sg!(o8_2_server_active_app_disconnect_now, 2, 4, 0);
+//@h props=C08,C03,C09 tier=quick timeout=600 role=server-event-grammar args=--no-memory-safety-checks
+//@fn Server::{handle_event, handle_events, step_active_clients, drop}, RemoteClient::{send, disconnect, disconnect_now}
+//@bound server tracking address A in state Active (deadline any, disconnect signal any; the connection model answers anything and delivers 0..1 packets per receive()); ONE operation: RemoteClient::send()
+//@assume as o8_2_server_pending_frame_syn; the timer loop of handle_events (peek, break unless due, pop, handle_event) is modelled by the obligation calling handle_event on the due entry (see o18_1_pending_timer)
+sg!(o8_2_server_active_app_send, 2, 5, 0);
+//@h props=C08,C03,C09 tier=quick timeout=600 role=server-event-grammar args=--no-memory-safety-checks
+//@fn Server::{handle_event, handle_events, step_active_clients, drop}, RemoteClient::{send, disconnect, disconnect_now}
+//@bound server tracking address A in state Active (deadline any, disconnect signal any; the connection model answers anything and delivers 0..1 packets per receive()); ONE operation: Server::drop(A)
+//@assume as o8_2_server_pending_frame_syn; the timer loop of handle_events (peek, break unless due, pop, handle_event) is modelled by the obligation calling handle_event on the due entry (see o18_1_pending_timer)
+sg!(o8_2_server_active_drop, 2, 6, 0);
+//@h props=C08,C03,C09 tier=quick timeout=600 role=server-event-grammar args=--no-memory-safety-checks
+//@fn Server::{handle_event, handle_events, step_active_clients, drop}, RemoteClient::{send, disconnect, disconnect_now}
+//@bound server tracking address A in state Active (deadline any, disconnect signal any; the connection model answers anything and delivers 0..1 packets per receive()); ONE operation: handle_events at any time with no timer entry due (the active-timeout scan)
+//@assume as o8_2_server_pending_frame_syn; the timer loop of handle_events (peek, break unless due, pop, handle_event) is modelled by the obligation calling handle_event on the due entry (see o18_1_pending_timer)
+sg!(o8_2_server_active_timeout_scan, 2, 7, 0);
+//@h props=C08,C03,C09 tier=quick timeout=600 role=server-event-grammar args=--no-memory-safety-checks
+//@fn Server::{handle_frame and the handler of this frame type}
+//@bound server tracking address A in state Closing (its Disconnect resend timer entry: any time, any count <= 10); ONE syn frame from A with every field any, at any time < 2^40
+//@assume as o8_2_server_pending_frame_syn
+sg!(o8_2_server_closing_frame_syn, 3, 0, 0);
+//@h props=C08,C03,C09 tier=quick timeout=600 role=server-event-grammar args=--no-memory-safety-checks
+//@fn Server::{handle_frame and the handler of this frame type}
+//@bound server tracking address A in state Closing (its Disconnect resend timer entry: any time, any count <= 10); ONE syn_ack frame from A with every field any, at any time < 2^40
+//@assume as o8_2_server_pending_frame_syn
+sg!(o8_2_server_closing_frame_syn_ack, 3, 0, 1);
+//@h props=C08,C03,C09 tier=quick timeout=600 role=server-event-grammar args=--no-memory-safety-checks
+//@fn Server::{handle_frame and the handler of this frame type}
+//@bound server tracking address A in state Closing (its Disconnect resend timer entry: any time, any count <= 10); ONE ack frame from A with every field any, at any time < 2^40
+//@assume as o8_2_server_pending_frame_syn
+sg!(o8_2_server_closing_frame_ack, 3, 0, 2);
+//@h props=C08,C03,C09 tier=quick timeout=600 role=server-event-grammar args=--no-memory-safety-checks
+//@fn Server::{handle_frame and the handler of this frame type}
+//@bound server tracking address A in state Closing (its Disconnect resend timer entry: any time, any count <= 10); ONE error frame from A with every field any, at any time < 2^40
+//@assume as o8_2_server_pending_frame_syn
+sg!(o8_2_server_closing_frame_error, 3, 0, 3);
+//@h props=C08,C03,C09 tier=quick timeout=600 role=server-event-grammar args=--no-memory-safety-checks
+//@fn Server::{handle_frame and the handler of this frame type}
+//@bound server tracking address A in state Closing (its Disconnect resend timer entry: any time, any count <= 10); ONE disconnect frame from A with every field any, at any time < 2^40
+//@assume as o8_2_server_pending_frame_syn
+sg!(o8_2_server_closing_frame_disconnect, 3, 0, 4);
+//@h props=C08,C03,C09 tier=quick timeout=600 role=server-event-grammar args=--no-memory-safety-checks
+//@fn Server::{handle_frame and the handler of this frame type}
+//@bound server tracking address A in state Closing (its Disconnect resend timer entry: any time, any count <= 10); ONE disconnect_ack frame from A with every field any, at any time < 2^40
+//@assume as o8_2_server_pending_frame_syn
+sg!(o8_2_server_closing_frame_disconnect_ack, 3, 0, 5);
+//@h props=C08,C03,C09 tier=quick timeout=600 role=server-event-grammar args=--no-memory-safety-checks
+//@fn Server::{handle_frame and the handler of this frame type}
+//@bound server tracking address A in state Closing (its Disconnect resend timer entry: any time, any count <= 10); ONE data frame from A with every field any, at any time < 2^40
+//@assume as o8_2_server_pending_frame_syn
+sg!(o8_2_server_closing_frame_data, 3, 0, 6);
+//@h props=C08,C03,C09 tier=quick timeout=600 role=server-event-grammar args=--no-memory-safety-checks
+//@fn Server::{handle_frame and the handler of this frame type}
+//@bound server tracking address A in state Closing (its Disconnect resend timer entry: any time, any count <= 10); ONE sync frame from A with every field any, at any time < 2^40
+//@assume as o8_2_server_pending_frame_syn
+sg!(o8_2_server_closing_frame_sync, 3, 0, 7);
+//@h props=C08,C03,C09 tier=quick timeout=600 role=server-event-grammar args=--no-memory-safety-checks
+//@fn Server::{handle_frame and the handler of this frame type}
+//@bound server tracking address A in state Closing (its Disconnect resend timer entry: any time, any count <= 10); ONE ackframe frame from A with every field any, at any time < 2^40
+//@assume as o8_2_server_pending_frame_syn
+sg!(o8_2_server_closing_frame_ackframe, 3, 0, 8);
+//@h props=C08,C03,C09 tier=quick timeout=600 role=server-event-grammar args=--no-memory-safety-checks
+//@fn Server::{handle_event, handle_events, step_active_clients, drop}, RemoteClient::{send, disconnect, disconnect_now}
+//@bound server tracking address A in state Closing (its Disconnect resend timer entry: any time, any count <= 10); ONE operation: its timer entry fires at any time at which it is due (handle_event, the body of the timer loop of handle_events)
+//@assume as o8_2_server_pending_frame_syn; the timer loop of handle_events (peek, break unless due, pop, handle_event) is modelled by the obligation calling handle_event on the due entry (see o18_1_pending_timer)
+sg!(o8_2_server_closing_timer_fires, 3, 1, 0);
+//@h props=C08,C03,C09 tier=quick timeout=600 role=server-event-grammar args=--no-memory-safety-checks
+//@fn Server::{handle_event, handle_events, step_active_clients, drop}, RemoteClient::{send, disconnect, disconnect_now}
+//@bound server tracking address A in state Closing (its Disconnect resend timer entry: any time, any count <= 10); ONE operation: step_active_clients at any time
+//@assume as o8_2_server_pending_frame_syn; the timer loop of handle_events (peek, break unless due, pop, handle_event) is modelled by the obligation calling handle_event on the due entry (see o18_1_pending_timer)
+sg!(o8_2_server_closing_step_active_clients, 3, 2, 0);
+//@h props=C08,C03,C09 tier=quick timeout=600 role=server-event-grammar args=--no-memory-safety-checks
+//@fn Server::{handle_event, handle_events, step_active_clients, drop}, RemoteClient::{send, disconnect, disconnect_now}
+//@bound server tracking address A in state Closing (its Disconnect resend timer entry: any time, any count <= 10); ONE operation: RemoteClient::disconnect()
+//@assume as o8_2_server_pending_frame_syn; the timer loop of handle_events (peek, break unless due, pop, handle_event) is modelled by the obligation calling handle_event on the due entry (see o18_1_pending_timer)
+sg!(o8_2_server_closing_app_disconnect, 3, 3, 0);
+//@h props=C08,C03,C09 tier=quick timeout=600 role=server-event-grammar args=--no-memory-safety-checks
+//@fn Server::{handle_event, handle_events, step_active_clients, drop}, RemoteClient::{send, disconnect, disconnect_now}
+//@bound server tracking address A in state Closing (its Disconnect resend timer entry: any time, any count <= 10); ONE operation: RemoteClient::disconnect_now()
+//@assume as o8_2_server_pending_frame_syn; the timer loop of handle_events (peek, break unless due, pop, handle_event) is modelled by the obligation calling handle_event on the due entry (see o18_1_pending_timer)
+sg!(o8_2_server_closing_app_disconnect_now, 3, 4, 0);
+//@h props=C08,C03,C09 tier=quick timeout=600 role=server-event-grammar args=--no-memory-safety-checks
+//@fn Server::{handle_event, handle_events, step_active_clients, drop}, RemoteClient::{send, disconnect, disconnect_now}
+//@bound server tracking address A in state Closing (its Disconnect resend timer entry: any time, any count <= 10); ONE operation: RemoteClient::send()
+//@assume as o8_2_server_pending_frame_syn; the timer loop of handle_events (peek, break unless due, pop, handle_event) is modelled by the obligation calling handle_event on the due entry (see o18_1_pending_timer)
+sg!(o8_2_server_closing_app_send, 3, 5, 0);
+//@h props=C08,C03,C09 tier=quick timeout=600 role=server-event-grammar args=--no-memory-safety-checks
+//@fn Server::{handle_event, handle_events, step_active_clients, drop}, RemoteClient::{send, disconnect, disconnect_now}
+//@bound server tracking address A in state Closing (its Disconnect resend timer entry: any time, any count <= 10); ONE operation: Server::drop(A)
+//@assume as o8_2_server_pending_frame_syn; the timer loop of handle_events (peek, break unless due, pop, handle_event) is modelled by the obligation calling handle_event on the due entry (see o18_1_pending_timer)
+sg!(o8_2_server_closing_drop, 3, 6, 0);
+//@h props=C08,C03,C09 tier=quick timeout=600 role=server-event-grammar args=--no-memory-safety-checks
+//@fn Server::{handle_event, handle_events, step_active_clients, drop}, RemoteClient::{send, disconnect, disconnect_now}
+//@bound server tracking address A in state Closing (its Disconnect resend timer entry: any time, any count <= 10); ONE operation: handle_events at any time with no timer entry due (the active-timeout scan)
+//@assume as o8_2_server_pending_frame_syn; the timer loop of handle_events (peek, break unless due, pop, handle_event) is modelled by the obligation calling handle_event on the due entry (see o18_1_pending_timer)
+sg!(o8_2_server_closing_timeout_scan, 3, 7, 0);
+//@h props=C08,C03,C09 tier=quick timeout=600 role=server-event-grammar args=--no-memory-safety-checks
+//@fn Server::{handle_frame and the handler of this frame type}
+//@bound server tracking address A in state Closed (its forget timer entry: any time); ONE syn frame from A with every field any, at any time < 2^40
+//@assume as o8_2_server_pending_frame_syn
+sg!(o8_2_server_closed_frame_syn, 4, 0, 0);
+//@h props=C08,C03,C09 tier=quick timeout=600 role=server-event-grammar args=--no-memory-safety-checks
+//@fn Server::{handle_frame and the handler of this frame type}
+//@bound server tracking address A in state Closed (its forget timer entry: any time); ONE syn_ack frame from A with every field any, at any time < 2^40
+//@assume as o8_2_server_pending_frame_syn
+sg!(o8_2_server_closed_frame_syn_ack, 4, 0, 1);
+//@h props=C08,C03,C09 tier=quick timeout=600 role=server-event-grammar args=--no-memory-safety-checks
+//@fn Server::{handle_frame and the handler of this frame type}
+//@bound server tracking address A in state Closed (its forget timer entry: any time); ONE ack frame from A with every field any, at any time < 2^40
+//@assume as o8_2_server_pending_frame_syn
+sg!(o8_2_server_closed_frame_ack, 4, 0, 2);
+//@h props=C08,C03,C09 tier=quick timeout=600 role=server-event-grammar args=--no-memory-safety-checks
+//@fn Server::{handle_frame and the handler of this frame type}
+//@bound server tracking address A in state Closed (its forget timer entry: any time); ONE error frame from A with every field any, at any time < 2^40
+//@assume as o8_2_server_pending_frame_syn
+sg!(o8_2_server_closed_frame_error, 4, 0, 3);
+//@h props=C08,C03,C09 tier=quick timeout=600 role=server-event-grammar args=--no-memory-safety-checks
+//@fn Server::{handle_frame and the handler of this frame type}
+//@bound server tracking address A in state Closed (its forget timer entry: any time); ONE disconnect frame from A with every field any, at any time < 2^40
+//@assume as o8_2_server_pending_frame_syn
+sg!(o8_2_server_closed_frame_disconnect, 4, 0, 4);
+//@h props=C08,C03,C09 tier=quick timeout=600 role=server-event-grammar args=--no-memory-safety-checks
+//@fn Server::{handle_frame and the handler of this frame type}
+//@bound server tracking address A in state Closed (its forget timer entry: any time); ONE disconnect_ack frame from A with every field any, at any time < 2^40
+//@assume as o8_2_server_pending_frame_syn
+sg!(o8_2_server_closed_frame_disconnect_ack, 4, 0, 5);
+//@h props=C08,C03,C09 tier=quick timeout=600 role=server-event-grammar args=--no-memory-safety-checks
+//@fn Server::{handle_frame and the handler of this frame type}
+//@bound server tracking address A in state Closed (its forget timer entry: any time); ONE data frame from A with every field any, at any time < 2^40
+//@assume as o8_2_server_pending_frame_syn
+sg!(o8_2_server_closed_frame_data, 4, 0, 6);
+//@h props=C08,C03,C09 tier=quick timeout=600 role=server-event-grammar args=--no-memory-safety-checks
+//@fn Server::{handle_frame and the handler of this frame type}
+//@bound server tracking address A in state Closed (its forget timer entry: any time); ONE sync frame from A with every field any, at any time < 2^40
+//@assume as o8_2_server_pending_frame_syn
+sg!(o8_2_server_closed_frame_sync, 4, 0, 7);
+//@h props=C08,C03,C09 tier=quick timeout=600 role=server-event-grammar args=--no-memory-safety-checks
+//@fn Server::{handle_frame and the handler of this frame type}
+//@bound server tracking address A in state Closed (its forget timer entry: any time); ONE ackframe frame from A with every field any, at any time < 2^40
+//@assume as o8_2_server_pending_frame_syn
+sg!(o8_2_server_closed_frame_ackframe, 4, 0, 8);
+//@h props=C08,C03,C09 tier=quick timeout=600 role=server-event-grammar args=--no-memory-safety-checks
+//@fn Server::{handle_event, handle_events, step_active_clients, drop}, RemoteClient::{send, disconnect, disconnect_now}
+//@bound server tracking address A in state Closed (its forget timer entry: any time); ONE operation: its timer entry fires at any time at which it is due (handle_event, the body of the timer loop of handle_events)
+//@assume as o8_2_server_pending_frame_syn; the timer loop of handle_events (peek, break unless due, pop, handle_event) is modelled by the obligation calling handle_event on the due entry (see o18_1_pending_timer)
+sg!(o8_2_server_closed_timer_fires, 4, 1, 0);
+//@h props=C08,C03,C09 tier=quick timeout=600 role=server-event-grammar args=--no-memory-safety-checks
+//@fn Server::{handle_event, handle_events, step_active_clients, drop}, RemoteClient::{send, disconnect, disconnect_now}
+//@bound server tracking address A in state Closed (its forget timer entry: any time); ONE operation: step_active_clients at any time
+//@assume as o8_2_server_pending_frame_syn; the timer loop of handle_events (peek, break unless due, pop, handle_event) is modelled by the obligation calling handle_event on the due entry (see o18_1_pending_timer)
+sg!(o8_2_server_closed_step_active_clients, 4, 2, 0);
+//@h props=C08,C03,C09 tier=quick timeout=600 role=server-event-grammar args=--no-memory-safety-checks
+//@fn Server::{handle_event, handle_events, step_active_clients, drop}, RemoteClient::{send, disconnect, disconnect_now}
+//@bound server tracking address A in state Closed (its forget timer entry: any time); ONE operation: RemoteClient::disconnect()
+//@assume as o8_2_server_pending_frame_syn; the timer loop of handle_events (peek, break unless due, pop, handle_event) is modelled by the obligation calling handle_event on the due entry (see o18_1_pending_timer)
+sg!(o8_2_server_closed_app_disconnect, 4, 3, 0);
+//@h props=C08,C03,C09 tier=quick timeout=600 role=server-event-grammar args=--no-memory-safety-checks
+//@fn Server::{handle_event, handle_events, step_active_clients, drop}, RemoteClient::{send, disconnect, disconnect_now}
+//@bound server tracking address A in state Closed (its forget timer entry: any time); ONE operation: RemoteClient::disconnect_now()
+//@assume as o8_2_server_pending_frame_syn; the timer loop of handle_events (peek, break unless due, pop, handle_event) is modelled by the obligation calling handle_event on the due entry (see o18_1_pending_timer)
+sg!(o8_2_server_closed_app_disconnect_now, 4, 4, 0);
+//@h props=C08,C03,C09 tier=quick timeout=600 role=server-event-grammar args=--no-memory-safety-checks
+//@fn Server::{handle_event, handle_events, step_active_clients, drop}, RemoteClient::{send, disconnect, disconnect_now}
+//@bound server tracking address A in state Closed (its forget timer entry: any time); ONE operation: RemoteClient::send()
+//@assume as o8_2_server_pending_frame_syn; the timer loop of handle_events (peek, break unless due, pop, handle_event) is modelled by the obligation calling handle_event on the due entry (see o18_1_pending_timer)
+sg!(o8_2_server_closed_app_send, 4, 5, 0);
+//@h props=C08,C03,C09 tier=quick timeout=600 role=server-event-grammar args=--no-memory-safety-checks
+//@fn Server::{handle_event, handle_events, step_active_clients, drop}, RemoteClient::{send, disconnect, disconnect_now}
+//@bound server tracking address A in state Closed (its forget timer entry: any time); ONE operation: Server::drop(A)
+//@assume as o8_2_server_pending_frame_syn; the timer loop of handle_events (peek, break unless due, pop, handle_event) is modelled by the obligation calling handle_event on the due entry (see o18_1_pending_timer)
+sg!(o8_2_server_closed_drop, 4, 6, 0);
+//@h props=C08,C03,C09 tier=quick timeout=600 role=server-event-grammar args=--no-memory-safety-checks
+//@fn Server::{handle_event, handle_events, step_active_clients, drop}, RemoteClient::{send, disconnect, disconnect_now}
+//@bound server tracking address A in state Closed (its forget timer entry: any time); ONE operation: handle_events at any time with no timer entry due (the active-timeout scan)
+//@assume as o8_2_server_pending_frame_syn; the timer loop of handle_events (peek, break unless due, pop, handle_event) is modelled by the obligation calling handle_event on the due entry (see o18_1_pending_timer)
+sg!(o8_2_server_closed_timeout_scan, 4, 7, 0);
 
-//@h props=C08,C03,C09 tier=quick timeout=1500 role=server-event-grammar args=--no-memory-safety-checks
-//@fn Server::{handle_frame and all frame handlers, handle_events, handle_event, step_active_clients, drop}, RemoteClient::{send, disconnect, disconnect_now}
-//@bound ONE operation on a server tracking address A in state Pending (fields any, its SYN-ACK resend timer at any time with any count <= 10): any frame of the nine types (fields any) from A at any time, a timer evaluation at any time, step_active_clients, an application call, or drop()
-//@assume VecMap for HashMap; opaque connection model (receive() delivers 0..1 packets); socket model; nonce source any; crc::compute stubbed; pointer checks off (lifecycle logic only)
-sgram!(o8_2_server_event_grammar_pending, 1);
-//@h props=C08,C03,C09 tier=quick timeout=1500 role=server-event-grammar args=--no-memory-safety-checks
-//@fn Server::{handle_frame and all frame handlers, handle_events, handle_event, step_active_clients, drop}, RemoteClient::{send, disconnect, disconnect_now}
-//@bound as o8_2_server_event_grammar_pending from state Active (timeout time any, disconnect signal any, connection model answers anything)
-//@assume as o8_2_server_event_grammar_pending
-sgram!(o8_2_server_event_grammar_active, 2);
-//@h props=C08,C03,C09 tier=quick timeout=1500 role=server-event-grammar args=--no-memory-safety-checks
-//@fn Server::{handle_frame and all frame handlers, handle_events, handle_event, step_active_clients, drop}, RemoteClient::{send, disconnect, disconnect_now}
-//@bound as o8_2_server_event_grammar_pending from state Closing (its Disconnect resend timer at any time with any count <= 10)
-//@assume as o8_2_server_event_grammar_pending
-sgram!(o8_2_server_event_grammar_closing, 3);
-//@h props=C08,C03 tier=quick timeout=1500 role=server-event-grammar args=--no-memory-safety-checks
-//@fn Server::{handle_frame and all frame handlers, handle_events, handle_event, step_active_clients, drop}, RemoteClient::{send, disconnect, disconnect_now}
-//@bound as o8_2_server_event_grammar_pending from state Closed (its forget timer at any time)
-//@assume as o8_2_server_event_grammar_pending
-sgram!(o8_2_server_event_grammar_closed, 4);
+//@h props=C08,C03,C09 tier=quick timeout=600 role=server-event-grammar args=--no-memory-safety-checks
+//@fn Server::{handle_frame, handle_disconnect}
+//@bound as o8_2_server_active_frame_disconnect, with the connection model delivering one packet in receive()
+//@assume as o8_2_server_pending_frame_syn
+sg!(o8_2_server_active_frame_disconnect_delivering, 2, 0, 16 + 4);
+//@h props=C08,C03,C09 tier=quick timeout=600 role=server-event-grammar args=--no-memory-safety-checks
+//@fn Server::step_active_clients
+//@bound as o8_2_server_active_step_active_clients, with the connection model delivering one packet in receive()
+//@assume as o8_2_server_pending_frame_syn
+sg!(o8_2_server_active_step_active_clients_delivering, 2, 2, 16);
+//@h props=C08,C03,C10 tier=quick timeout=600 role=server-event-grammar args=--no-memory-safety-checks
+//@fn Server::handle_events
+//@bound as o8_2_server_active_timeout_scan, with the connection model delivering one packet in receive()
+//@assume as o8_2_server_pending_frame_syn
+sg!(o8_2_server_active_timeout_scan_delivering, 2, 7, 16);
 
-// ---- the real step(): frames waiting in the socket are read before the timers are evaluated (C10) -------
-
-//@h props=C10,C08 tier=quick timeout=1500 role=server-real-step args=--no-memory-safety-checks
-//@fn Server::{step, flush_active_clients, handle_frames, handle_frame, handle_sync, handle_events, step_active_clients}, Frame::read
-//@bound server tracking address A in state Active (deadline any, default config); ONE sync frame (14 bytes, no ids) from A waiting in the socket; clock reading any < 2^40 -- in particular at or past the deadline; one call of the real step()
-//@assume clock behind now_ms() = a value set by the obligation; socket model with one queued datagram; VecMap; opaque connection model; crc::compute stubbed; pointer checks off
-#[kani::proof]
-#[kani::unwind(6)]
-#[kani::stub(crate::frame::serial::crc::compute, crate::frame::serial::verif_codec::crc_stub)]
-fn o10_4_server_step_reads_waiting_frames_before_timers() {
-    unsafe { crate::frame::serial::verif_codec::CRC_STUB_VALUE = 0; }
-    let cfg = EndpointConfig::default();
-    let mut s = mk_server(4, 4, cfg.clone());
-    let deadline = any_time();
-    let rc = Rc::new(RefCell::new(remote_client::RemoteClient { address: addr(A), max_packet_size: 1000,
-        state: remote_client::State::Active(remote_client::ActiveState { half_connection: oq::HalfConnection::model(), timeout_time_ms: deadline, disconnect_signal: None }) }));
-    s.clients.insert(addr(A), Rc::clone(&rc));
-    s.active_clients.push(Rc::clone(&rc));
-    s.socket.queue_rx(&[11u8, 0, 0, 0, 0, 0, 0, 0, 0, 0, 0, 0, 0, 0], A);
-    let now = any_time();
-    unsafe { env::CLOCK_MS = now; }
-    let events = s.step();
-    std::mem::forget(events);
-    assert!(oq::count(oq::SYNC) == 1, "the waiting frame reached the connection");
-    assert!(class_of(&s, A) == 2, "[C10] a connection whose peer's frame was waiting in the socket is not reported as timed out");
-    match rc.borrow().state {
-        remote_client::State::Active(ref st) => assert!(st.timeout_time_ms == now + cfg.active_timeout_ms, "[C10] a received frame restarts the timeout"),
-        _ => panic!("not active"),
-    }
-    kani::cover!(now >= deadline, "the deadline had passed when step() was called");
-    std::mem::forget(rc);
-    std::mem::forget(s);
-}
+// (A real-step obligation for the server, like o10_4_client_step_reads_waiting_frames_before_timers, was tried and withdrawn: after
+// `active_clients.retain(..)` the scan of step_active_clients needs 26 GB in CBMC even for fully concrete inputs; DESIGN.md 10.8.)
 
 // ---- C17: a handshake that times out gives its slot back, whatever enable_handshake_errors says ---------
 //@h props=C17,C10,C18 tier=quick timeout=1500 role=server-limits-handshake-timeout args=--no-memory-safety-checks
@@ -681,3 +964,5 @@ fn o17_1_timed_out_handshake_frees_its_slot() {
     assert!(s.socket.sent_n() == sent0 + 1 && s.socket.sent(sent0).len == 25 && s.socket.sent(sent0).head[0] == 1, "[C17] SYN-ACK, not ServerFull");
     std::mem::forget(s);
 }
+
+
